@@ -11,7 +11,8 @@ spelling (colours, border styles, format, justification, vertical alignment), al
 previous / at the next position; plus the RTFDocument-level rules (df together with a
 figure, neither, group_by/page_by/subline_by column missing from the data at every list position
 and in every section, new_page without page_by, df/rtf_body/rtf_column_header list length
-mismatches, missing figure file at every list position).
+mismatches, missing figure file at every list position), each crossed with the other optional fields of the same
+constructor set / unset (the rule must hold whatever else is configured).
 Oracle: the constructor raises ValueError (pydantic's ValidationError is one) - or FileNotFoundError
 for a missing figure file.  Any other exception type, or a returned object, is a violation.
 Positive control: the same value with the *valid* filler at the same position must construct; an
@@ -233,7 +234,35 @@ def component(comp: str, **kw):
 
 def frame():
     import polars as pl
-    return pl.DataFrame({"A": ["a", "a", "b", "b"], "B": ["p", "q", "p", "q"], "C": ["x", "x", "x", "y"], "D": [1, 2, 3, 4]})
+    return pl.DataFrame({"A": ["a", "a", "b", "b"], "B": ["p", "q", "p", "q"], "C": ["x", "x", "x", "y"], "D": [1, 2, 3, 4],
+                         "E": ["u", "u", "v", "v"], "F": ["m", "m", "m", "n"]})
+
+
+# Cross-field rules are crossed with the OTHER optional fields of the same constructor, set (to a valid non-default value)
+# or unset: the rule must hold in every such context (a validator that lets another field stand in for the missing one,
+# or skips the rule when some other field is set, is the slip this catches).  `ctx` in a case = names of the fields set.
+BODY_CTX = {"subline_by": ["A"], "group_by": ["B"], "pageby_row": "first_row", "pageby_header": False, "as_colheader": False,
+            "last_row": False, "col_rel_width": [2], "text_font": 4, "border_left": "double"}
+GROUP_OTHERS = {"group_by": ["D"], "page_by": ["E"], "subline_by": ["F"]}
+FIGURE_CTX = {"fig_align": "left", "fig_pos": "before", "fig_width": 3, "fig_height": [2]}
+DOC_CTX = ("rtf_title", "rtf_subline", "rtf_page_header", "rtf_page_footer", "rtf_footnote", "rtf_source", "rtf_page")
+
+
+def doc_ctx(names) -> dict:
+    import rtflite as rtf
+    make = {"rtf_title": lambda: rtf.RTFTitle(text="T"), "rtf_subline": lambda: rtf.RTFSubline(text="S"),
+            "rtf_page_header": lambda: rtf.RTFPageHeader(), "rtf_page_footer": lambda: rtf.RTFPageFooter(text="PF"),
+            "rtf_footnote": lambda: rtf.RTFFootnote(text="F", as_table=False), "rtf_source": lambda: rtf.RTFSource(text="S", as_table=False),
+            "rtf_page": lambda: rtf.RTFPage(nrow=10), "rtf_body": lambda: rtf.RTFBody()}
+    return {n: make[n]() for n in names}
+
+
+def subsets(names):
+    import itertools
+    names = list(names)
+    for k in range(len(names) + 1):
+        for c in itertools.combinations(names, k):
+            yield list(c)
 
 
 def eval_field(case: dict) -> dict:
@@ -303,9 +332,10 @@ def eval_doc(case: dict) -> dict:
                 flat[case["pos"]] = conv(missing)
             return flat[0] if case["shape"] == "scalar" else flat
 
-        ctl = attempt(lambda: rtf.RTFFigure(figures=figs(False)))
-        run = (lambda: rtf.RTFFigure(figures=figs(True)))
-        where, bad_repr, allow_fnf = "RTFFigure.figures", f"missing file ({case['bad']}) at position {case['pos']} of {case['shape']}", True
+        fkw = {k: FIGURE_CTX[k] for k in case.get("ctx", [])}
+        ctl = attempt(lambda: rtf.RTFFigure(figures=figs(False), **fkw))
+        run = (lambda: rtf.RTFFigure(figures=figs(True), **fkw))
+        where, bad_repr, allow_fnf = "RTFFigure.figures", f"missing file ({case['bad']}) at position {case['pos']} of {case['shape']} (also set: {fkw})", True
     elif rule == "group-missing":
         opt, nsec, sec = case["opt"], case["sections"], case.get("sec", 0)
         names = ["A", "B", "C"]
@@ -317,22 +347,23 @@ def eval_doc(case: dict) -> dict:
                 flat[case["pos"]] = case["bad"]
             return flat[0] if case["shape"] == "scalar" else flat
 
+        okw = {k: GROUP_OTHERS[k] for k in case.get("ctx", [])}
+
         def doc(with_bad):
             if nsec == 1:
-                return rtf.RTFDocument(df=frame(), rtf_body=rtf.RTFBody(**{opt: cols(with_bad)}))
-            return rtf.RTFDocument(df=[frame() for _ in range(nsec)], rtf_body=bodies(nsec, **{opt: cols(with_bad)}))
+                return rtf.RTFDocument(df=frame(), rtf_body=rtf.RTFBody(**{opt: cols(with_bad)}, **okw))
+            return rtf.RTFDocument(df=[frame() for _ in range(nsec)], rtf_body=bodies(nsec, **{opt: cols(with_bad)}, **okw))
 
         ctl = attempt(lambda: doc(False))
         run = (lambda: doc(True))
         where = f"RTFDocument.{opt}"
-        bad_repr = f"column {case['bad']!r} (not in the data) at position {case['pos']} of {case['shape']} {opt}, section {sec + 1}/{nsec}"
+        bad_repr = f"column {case['bad']!r} (not in the data) at position {case['pos']} of {case['shape']} {opt}, section {sec + 1}/{nsec}" + (f" (also set: {okw})" if okw else "")
     elif rule == "new-page":
-        extras = dict(case.get("extras") or {})
-        ctl = attempt(lambda: (rtf.RTFBody(new_page=True, page_by=["A"], **extras), rtf.RTFBody(new_page=False, **extras)))
-        if case.get("in_doc"):
-            run = (lambda: rtf.RTFDocument(df=frame(), rtf_body=rtf.RTFBody(new_page=True, **extras)))
-        else:
-            run = (lambda: rtf.RTFBody(new_page=True, **extras))
+        extras = {k: BODY_CTX[k] for k in case.get("ctx", [])}
+        wrap = (lambda b: rtf.RTFDocument(df=frame(), rtf_body=b)) if case.get("in_doc") else (lambda b: b)
+        # twin: the same context with page_by present (new_page legal), and with new_page=False (page_by absent)
+        ctl = attempt(lambda: (wrap(rtf.RTFBody(new_page=True, page_by=["C"], **extras)), wrap(rtf.RTFBody(new_page=False, **extras))))
+        run = (lambda: wrap(rtf.RTFBody(new_page=True, **extras)))
         where, bad_repr = "RTFBody.new_page", f"new_page=True without page_by (other arguments {extras})"
     elif rule == "df-and-figure":
         d = fig_dir()
@@ -344,16 +375,17 @@ def eval_doc(case: dict) -> dict:
                 return {"df": frame()}
             return {"df": [frame() for _ in range(ndf)], "rtf_body": [rtf.RTFBody() for _ in range(ndf)]}
 
-        ctl = attempt(lambda: (rtf.RTFDocument(**dfkw()), rtf.RTFDocument(rtf_figure=fig())))
-        run = (lambda: rtf.RTFDocument(rtf_figure=fig(), **dfkw()))
-        where, bad_repr = "RTFDocument.df+rtf_figure", f"df ({'single' if ndf == 0 else f'list of {ndf}'}) together with a figure component of {case['nfig']} file(s)"
+        names = case.get("ctx", [])
+        ctl = attempt(lambda: (rtf.RTFDocument(**dfkw(), **doc_ctx(names)), rtf.RTFDocument(rtf_figure=fig(), **doc_ctx(names))))
+        run = (lambda: rtf.RTFDocument(rtf_figure=fig(), **dfkw(), **doc_ctx(names)))
+        where = "RTFDocument.df+rtf_figure"
+        bad_repr = f"df ({'single' if ndf == 0 else f'list of {ndf}'}) together with a figure component of {case['nfig']} file(s); other components: {names}"
     elif rule == "neither":
-        others = {"none": lambda: {}, "title": lambda: {"rtf_title": rtf.RTFTitle(text="T")}, "body": lambda: {"rtf_body": rtf.RTFBody()},
-                  "page": lambda: {"rtf_page": rtf.RTFPage(nrow=10)}, "footnote": lambda: {"rtf_footnote": rtf.RTFFootnote(text="F", as_table=False)},
-                  "df-none": lambda: {"df": None, "rtf_figure": None}}[case["with"]]
-        ctl = attempt(lambda: rtf.RTFDocument(**{**others(), "df": frame()}))
-        run = (lambda: rtf.RTFDocument(**others()))
-        where, bad_repr = "RTFDocument.neither", f"neither df nor rtf_figure (other components: {case['with']})"
+        names = case.get("ctx", [])
+        explicit = {"df": None, "rtf_figure": None} if case.get("explicit_none") else {}
+        ctl = attempt(lambda: rtf.RTFDocument(**{**doc_ctx(names), "df": frame()}))
+        run = (lambda: rtf.RTFDocument(**doc_ctx(names), **explicit))
+        where, bad_repr = "RTFDocument.neither", f"neither df nor rtf_figure{' (both passed as None)' if explicit else ''}; other components: {names}"
     elif rule == "section-length":
         n, m, what = case["ndf"], case["nother"], case["what"]
 
@@ -363,12 +395,12 @@ def eval_doc(case: dict) -> dict:
                 kw["rtf_body"] = [rtf.RTFBody() for _ in range(k)]
             else:
                 kw["rtf_body"] = [rtf.RTFBody() for _ in range(n)]
-                kw["rtf_column_header"] = [[rtf.RTFColumnHeader(text=["a", "b", "c", "d"])] for _ in range(k)]
-            return rtf.RTFDocument(**kw)
+                kw["rtf_column_header"] = [[rtf.RTFColumnHeader(text=["a", "b", "c", "d", "e", "f"])] for _ in range(k)]
+            return rtf.RTFDocument(**kw, **doc_ctx(case.get("ctx", [])))
 
         ctl = attempt(lambda: doc(n))
         run = (lambda: doc(m))
-        where, bad_repr = f"RTFDocument.df-vs-{what}", f"df list of {n} with {'nested ' if what != 'rtf_body' else ''}{what} list of {m}"
+        where, bad_repr = f"RTFDocument.df-vs-{what}", f"df list of {n} with {'nested ' if what != 'rtf_body' else ''}{what} list of {m}; other components: {case.get('ctx', [])}"
     else:
         raise ValueError(f"unknown rule {rule}")
     if case.get("ctl"):
@@ -381,6 +413,8 @@ def eval_doc(case: dict) -> dict:
     res = attempt(run)
     judge(where, bad_repr, res, allow_fnf, viol, cnt)
     cnt["invalid-doc-" + rule] = 1
+    if case.get("ctx"):
+        cnt["invalid-doc-with-other-fields-set"] = 1
     out = {"viol": viol, "nt": True, "cnt": cnt}
     if case.get("pos") == 1 or rule == "df-and-figure":
         out["sample"] = {"rule": rule, "input": bad_repr, "outcome": res[1]}
@@ -445,32 +479,41 @@ def doc_cases(thorough: bool):
         for pos in range(npos(shape)):
             for kind in ("nofile", "nodir"):
                 for as_path in (False, True):
-                    add({"rule": "figure-missing", "shape": shape, "pos": pos, "bad": kind, "as_path": as_path})
+                    for ctx in subsets(FIGURE_CTX):
+                        add({"rule": "figure-missing", "shape": shape, "pos": pos, "bad": kind, "as_path": as_path, "ctx": ctx})
     for opt in ("group_by", "page_by", "subline_by"):
+        others = [o for o in GROUP_OTHERS if o != opt]
         for shape in lists:
             for pos in range(npos(shape)):
                 for b in ("Z", "a", "A ", ""):
                     for rot in ((0, 1, 2) if thorough else (0,)):
-                        add({"rule": "group-missing", "opt": opt, "shape": shape, "pos": pos, "bad": b, "sections": 1, "rot": rot})
+                        for ctx in subsets(others):
+                            add({"rule": "group-missing", "opt": opt, "shape": shape, "pos": pos, "bad": b, "sections": 1, "rot": rot, "ctx": ctx})
                         for nsec in ((2, 3) if thorough else (2,)):
                             for sec in range(nsec):
-                                add({"rule": "group-missing", "opt": opt, "shape": shape, "pos": pos, "bad": b, "sections": nsec,
-                                     "sec": sec, "rot": rot})
-    for extras in ({}, {"group_by": ["A"]}, {"pageby_header": False}, {"pageby_row": "first_row"}, {"as_colheader": False},
-                   {"col_rel_width": [1, 2]}):
+                                for ctx in (subsets(others) if thorough else ([], others)):
+                                    add({"rule": "group-missing", "opt": opt, "shape": shape, "pos": pos, "bad": b, "sections": nsec,
+                                         "sec": sec, "rot": rot, "ctx": ctx})
+    # new_page requires page_by: in every combination of the other optional body fields
+    for ctx in subsets(BODY_CTX):
         for in_doc in (False, True):
-            add({"rule": "new-page", "extras": extras, "in_doc": in_doc})
+            add({"rule": "new-page", "ctx": ctx, "in_doc": in_doc})
+    # df together with a figure / neither: in every combination of the other document components
     for ndf in (0, 1, 2):
         for nfig in (1, 2):
-            add({"rule": "df-and-figure", "ndf": ndf, "nfig": nfig})
-    for w in ("none", "title", "body", "page", "footnote", "df-none"):
-        add({"rule": "neither", "with": w})
+            for ctx in (subsets(DOC_CTX) if (ndf, nfig) == (0, 1) or thorough else ([], list(DOC_CTX))):
+                add({"rule": "df-and-figure", "ndf": ndf, "nfig": nfig, "ctx": ctx})
+    for ctx in subsets(DOC_CTX + ("rtf_body",)):
+        add({"rule": "neither", "ctx": ctx})
+    for ctx in ([], list(DOC_CTX)):
+        add({"rule": "neither", "ctx": ctx, "explicit_none": True})
     top = 4 if thorough else 3
     for what in ("rtf_body", "rtf_column_header"):
         for n in range(1, top + 1):
             for m in range(1, top + 1):
                 if m != n:
-                    add({"rule": "section-length", "what": what, "ndf": n, "nother": m})
+                    for ctx in (subsets(DOC_CTX) if thorough else ([], ["rtf_title", "rtf_footnote"], list(DOC_CTX))):
+                        add({"rule": "section-length", "what": what, "ndf": n, "nother": m, "ctx": ctx})
     return ctl, bad
 
 
@@ -481,8 +524,10 @@ def plan(run):
     run.rule = ("cases = (component, validated field named by the property, shape in {scalar, list1..3, 2x2, 1x3"
                 + (", 3x1, 2x3" if thorough else "") + "}, position, invalid value of the field's kind) with valid fillers "
                 + ("for every rotation of the valid list" if thorough else "(rotation of the valid filler list chosen by VERIF_SEED)")
-                + "; document-level rules enumerated over list position x section x bad name / list lengths 1.."
-                + ("4" if thorough else "3") + ". one evaluation = the invalid constructor call + its twin valid call. "
+                + "; document-level and cross-field rules enumerated over list position x section x bad name / list lengths 1.."
+                + ("4" if thorough else "3") + ", each crossed with the other optional fields of the same constructor set/unset (new_page without "
+                "page_by x all 2^9 combinations of 9 other RTFBody fields; df+figure and neither x all combinations of 7-8 other document "
+                "components; missing grouping column x the other grouping options; missing figure file x the other figure fields). one evaluation = the invalid constructor call + its twin valid call. "
                 "non-trivial = an invalid case whose twin control (valid value in the same position) constructs, or a control that "
                 "constructs; distinct = distinct case")
     run.assumptions = [
@@ -522,6 +567,7 @@ def plan(run):
     need = ["control-constructed", "rejected-ValueError", "rejected-FileNotFoundError", "invalid-inner-matrix-position",
             "invalid-scalar", "invalid-list3", "invalid-m2x2", "invalid-m1x3"]
     need += ["invalid-kind-" + k for k in KINDS] + ["invalid-with-" + x for x in SCHEMES]
+    need += ["invalid-doc-with-other-fields-set"]
     need += ["invalid-doc-" + r for r in ("figure-missing", "group-missing", "new-page", "df-and-figure", "neither", "section-length")]
     for n in need:
         if not run.cnt.get(n):
